@@ -192,4 +192,39 @@ def mkVerdict (ports : Option Ranges) (c : Class) (made : Option Task) (panicked
     { noCrash := true, templateOk := asTemplate c t,
       drawn := drawnOk (ports.getD []) [t], claims := claimsOk (ports.getD []) [t] }
 
+/-! ## histories of loads and rounds: which template applies
+
+"the constraints that apply to it (those of the task template …)" and "what the
+task template asks for" mean the template AS LAST LOADED: a workflow load hands
+the manager the classes it needs; a class loaded again under the same name
+replaces what was held, whatever the edit touched (constraints, bind, wants,
+command). The definitions below say this without any reference to the store. -/
+
+/-- The last definition of class `k` in a sequence of loaded definitions. -/
+def lastLoaded : List (Key × Class) → Key → Option Class
+  | [], _ => none
+  | (k', c) :: rest, k => match lastLoaded rest k with
+    | some d => some d
+    | none => if k' = k then some c else none
+
+/-- The template of class `k` that applies in round `n` (0-based) of a history:
+    its last definition among everything loaded up to and including round `n`'s load. -/
+def latest (steps : List Step) (n : Nat) (k : Key) : Option Class :=
+  lastLoaded ((steps.take (n + 1)).flatMap (·.loads)) k
+
+/-- Round by round, the descriptors with the templates that apply (`pre` = what was loaded before). -/
+def resolvedDescs (pre : List (Key × Class)) : List Step → List (List Desc)
+  | [] => []
+  | st :: rest => st.descs.map (resolveBy (lastLoaded (pre ++ st.loads))) :: resolvedDescs (pre ++ st.loads) rest
+
+/-- The property over a whole history: one outcome per round, and every round
+    satisfies every clause of `roundVerdict`. WHICH template a launched task is
+    judged against is in the outcome's launches (`Launch.desc.cls`): the driver
+    rebuilds what the implementation did over `resolvedDescs [] steps` — the
+    templates as last loaded —, and `C05_history_follows_latest` shows that these
+    are the descriptors of the model's outcomes. -/
+def histVerdict (steps : List Step) (outs : List Outcome) : Bool :=
+  decide (outs.length = steps.length) &&
+  (steps.zip outs).all fun x => (roundVerdict x.1.offers x.2).all
+
 end Placement
